@@ -222,6 +222,95 @@ func registerIOModels() {
 		desc:  "ParseUint(s, 10, 64): err == nil ==> s is [0-9]+; if s has that shape with at most 18 digits then err == nil and the value is its decimal value (decval)",
 		apply: parse(false),
 	}
+	libModels["(*sync.Pool).Get"] = &libModel{
+		desc: "pool exclusivity: Get on bytesPool / bufPool returns a non-nil *[]byte / *bytes.Buffer that no other live value aliases (the pooled slice has arbitrary length and capacity over its own backing array, the buffer arbitrary content); establishing this is the pool-discipline half of C13 and is assumed",
+		apply: func(c *FnCtx, st *State, in ssa.Instruction, cc *ssa.CallCommon, args []Val) Val {
+			g, _ := cc.Args[0].(*ssa.Global)
+			if g == nil {
+				c.abstracted["(*sync.Pool).Get on an unknown pool"]++
+				return c.freshVal(st, cc.Signature().Results().At(0).Type(), "pool")
+			}
+			switch g.Name() {
+			case "bytesPool":
+				bt := types.NewSlice(types.Typ[types.Uint8])
+				r := c.allocRef(st, "pooled")
+				arr := c.allocRef(st, "pooledarr")
+				l := c.declare("pool.len", sInt)
+				cp := c.declare("pool.cap", sInt)
+				c.assert(and(le("0", l), le(l, cp), le(cp, "4611686018427387904")))
+				p := VPtr{Root: rootObj, Ref: r, T: bt}
+				c.store(st, p, VSlice{arr, "0", l, cp, types.Typ[types.Uint8], ""})
+				return VIface{fmt.Sprint(c.eng.typeID(types.NewPointer(bt))), r}
+			case "bufPool":
+				r := c.allocRef(st, "pooledbuf")
+				t := c.eng.lookupType("*bytes.Buffer")
+				if t == nil {
+					panic(unsupported("bytes.Buffer type not found"))
+				}
+				return VIface{fmt.Sprint(c.eng.typeID(t)), r}
+			}
+			c.abstracted["(*sync.Pool).Get on pool "+g.Name()]++
+			return c.freshVal(st, cc.Signature().Results().At(0).Type(), "pool")
+		},
+	}
+	libModels["(*bytes.Buffer).Reset"] = &libModel{
+		desc:   "Reset empties the buffer (buflen == 0)",
+		writes: []string{"G$buf."},
+		apply: func(c *FnCtx, st *State, in ssa.Instruction, cc *ssa.CallCommon, args []Val) Val {
+			id := c.ptrOf(args[0]).Ref
+			m := c.heapGet(st, "G$buf.len", arrSort(sInt))
+			c.heapSet(st, "G$buf.len", arrSort(sInt), sto(m, id, "0"))
+			return VTuple{}
+		},
+	}
+	libModels["(*bytes.Buffer).Len"] = &libModel{
+		desc: "Len returns 0 <= buflen <= 2^62",
+		apply: func(c *FnCtx, st *State, in ssa.Instruction, cc *ssa.CallCommon, args []Val) Val {
+			id := c.ptrOf(args[0]).Ref
+			n := c.define("buf.len", sInt, sel(c.heapGet(st, "G$buf.len", arrSort(sInt)), id))
+			c.assert(and(le("0", n), le(n, "4611686018427387904")))
+			return VInt{n}
+		},
+	}
+	libModels["(*bytes.Buffer).Bytes"] = &libModel{
+		desc: "Bytes returns a slice of length buflen (content not modelled)",
+		apply: func(c *FnCtx, st *State, in ssa.Instruction, cc *ssa.CallCommon, args []Val) Val {
+			id := c.ptrOf(args[0]).Ref
+			n := sel(c.heapGet(st, "G$buf.len", arrSort(sInt)), id)
+			v := c.freshVal(st, cc.Signature().Results().At(0).Type(), "buf.bytes").(VSlice)
+			c.assume(st, eq(v.Len, n))
+			return v
+		},
+	}
+	libModels["(binary.bigEndian).Uint32"] = &libModel{
+		desc: "BigEndian.Uint32(b) requires len(b) >= 4 and returns b[0]<<24 | b[1]<<16 | b[2]<<8 | b[3]",
+		apply: func(c *FnCtx, st *State, in ssa.Instruction, cc *ssa.CallCommon, args []Val) Val {
+			b := args[len(args)-1].(VSlice)
+			c.oblige(st, "pre", "binary.BigEndian.Uint32:"+c.anchor(in), in.Pos(), le("4", b.Len), "BigEndian.Uint32 needs 4 bytes", nil)
+			E := c.heapGet(st, "E$uint8", mapSort(2, sInt))
+			at := func(k int) string { return sel(sel(E, b.Base), plus(b.Off, fmt.Sprint(k))) }
+			v := c.define("be32", sInt, app("+", app("*", "16777216", at(0)), app("*", "65536", at(1)), app("*", "256", at(2)), at(3)))
+			c.assert(and(le("0", v), le(v, "4294967295")))
+			return VInt{v}
+		},
+	}
+	libModels["(binary.bigEndian).PutUint32"] = &libModel{
+		desc:   "BigEndian.PutUint32(b, v) requires len(b) >= 4 and stores the four big-endian bytes of v into b[0:4]",
+		writes: []string{"E$uint8"},
+		apply: func(c *FnCtx, st *State, in ssa.Instruction, cc *ssa.CallCommon, args []Val) Val {
+			b := args[len(args)-2].(VSlice)
+			v := args[len(args)-1].(VInt).T
+			c.oblige(st, "pre", "binary.BigEndian.PutUint32:"+c.anchor(in), in.Pos(), le("4", b.Len), "BigEndian.PutUint32 needs 4 bytes", nil)
+			ms := mapSort(2, sInt)
+			E := c.heapGet(st, "E$uint8", ms)
+			k := c.fresh("k")
+			byteAt := func(sh string) string { return app("mod", app("div", v, sh), "256") }
+			arr := c.lambda("put32", sInt, k, ite(eq(k, b.Off), byteAt("16777216"), ite(eq(k, plus(b.Off, "1")), byteAt("65536"),
+				ite(eq(k, plus(b.Off, "2")), byteAt("256"), ite(eq(k, plus(b.Off, "3")), app("mod", v, "256"), sel(sel(E, b.Base), k))))))
+			c.heapSet(st, "E$uint8", ms, sto(E, b.Base, arr))
+			return VTuple{}
+		},
+	}
 	libModels["utf8.DecodeRuneInString"] = &libModel{
 		desc: "DecodeRuneInString(s): len(s) == 0 gives (RuneError, 0); otherwise 1 <= size <= min(4, len(s)); a first byte < 0x80 gives (that byte, 1); otherwise 0x80 <= r <= 0x10FFFF and every one of the size bytes consumed is >= 0x80",
 		apply: func(c *FnCtx, st *State, in ssa.Instruction, cc *ssa.CallCommon, args []Val) Val {
